@@ -368,7 +368,9 @@ impl Ctx {
             "wall_s": (wall * 1000.0).round() / 1000.0,
             "violations": nviol,
         });
-        let vd = verif_dir();
+        // VERIF_OUT_DIR redirects evidence and replay files (used by ./selftest so that
+        // mutant runs never overwrite the evidence of the real tree)
+        let vd = std::env::var("VERIF_OUT_DIR").unwrap_or_else(|_| verif_dir());
         if self.replay.is_none() {
             let _ = std::fs::create_dir_all(format!("{vd}/evidence"));
             let p = format!("{vd}/evidence/{}.json", self.id);
